@@ -140,6 +140,19 @@ void c05_case(Tape& t, Ctx& ctx) {
   SplineCase<D> c = gen_spline_case<D>(t, S, wellscaled_ratio(S), 10, 16);
   const int N = c.N;
   Spline sp(c.T, c.P, c.t0, c.bc);
+  if (t.chance(1, 4)) {
+    // the object under test propagated gradients for a LARGER problem before it was updated to this one
+    SplineCase<D> big; big.s = S; big.N = N + 1 + t.range(0, 4);
+    gen_durations(t, big.N, wellscaled_ratio(S), big.T, &big.sigma, &big.ratio, &big.dur_shape, &big.shape);
+    big.t0 = 0; gen_data(t, big);
+    sp = Spline(big.T, big.P, big.t0, big.bc);
+    MatrixType jc; Eigen::VectorXd jt; std::string jn;
+    gen_upstream(t, 0, big.N, nc, S, jc, jt, &jn);
+    (void)sp.propagateGrad(jc, jt);
+    if (t.flag()) sp.update(c.T, c.P, c.t0, c.bc); else sp.update(c.time_points(), c.P, c.bc);
+    if (!(sp.getTimeSegments() == c.T)) c.T = sp.getTimeSegments();   // the time-point route rounds the durations: the oracle uses what the spline uses
+    ctx.label("object:propagated-at-larger-size-before");
+  }
   ctx.label(std::string("order:") + SplineOf<D, S>::name());
   ctx.label(N == 1 ? "N=1" : (N == 2 ? "N=2" : "N>=3"));
   if (ctx.want_desc) ctx.desc << c.describe() << ", \"upstream\": [";
